@@ -674,8 +674,12 @@ def fault_applicable(world, pre, r):
             return ok, why
         if world.kind(on[0]) != "F":
             return False, "kind"
-        s = support(pre, on[0])
-        return (s is not None and s <= 1), "not-vacuum"
+        r_, d_ = _reduced(pre, [on[0]])
+        if r_ is None:
+            return False, "no-reference"
+        # exactly the vacuum: numerical dust above |0> makes a|psi> a tiny non-zero vector, which the
+        # library (legitimately) renormalises instead of rejecting
+        return bool(np.all(np.abs(r_[1:, :]) == 0) and np.all(np.abs(r_[:, 1:]) == 0)), "not-exactly-vacuum"
     if k == "shrink_below_support":
         if world.kind(on[0]) != "F":
             return False, "kind"
